@@ -1,53 +1,3 @@
-import Driver.Util
-import Driver.CatsWire
-import SymbolVerif.Model.Cats.Parser
-import SymbolVerif.Model.Cats.Printer
-namespace Driver.C04
-open SymbolVerif SymbolVerif.Cats SymbolVerif.Cats.Parser Driver Driver.CatsWire
+import Driver.CatsParse
 
-def jsonList (xs : List String) : String := "[" ++ ",".intercalate xs ++ "]"
-
-/-- `str()` of a declaration and of its children, as the nodes print themselves -/
-def renderTree (d : Decl) : String :=
-  let children : List String := match d with
-    | .alias _ => []
-    | .enum e => e.values.map EnumValue.render
-    | .struct s => s.fields.map Member.render
-  "{\"decl\":" ++ jsonStr d.render ++ ",\"children\":" ++ jsonList (children.map jsonStr) ++ "}"
-
-def report (items : List Item) : String :=
-  let ds := declsOf items
-  let kinds := items.map fun
-    | .decl d => jsonStr ("decl:" ++ d.name)
-    | .import p => jsonStr ("import:" ++ p)
-    | .comment c => jsonStr ("comment:" ++ c.parsed)
-  "{\"ok\":true,\"wire\":" ++ jsonStr (encSchema ds) ++
-    ",\"legacy\":" ++ jsonList (ds.map fun d => d.toLegacy.toJson) ++
-    ",\"render\":" ++ jsonList (ds.map renderTree) ++
-    ",\"items\":" ++ jsonList kinds ++
-    ",\"print\":" ++ jsonStr (Printer.print ds) ++ "}"
-
-def failure (e : ParseError) : String :=
-  "{\"ok\":false,\"line\":" ++ toString e.line ++ ",\"msg\":" ++ jsonStr e.msg ++ "}"
-
-def handle : Handler
-  | "parse", [doc] => do
-    let s ← strArg doc
-    match parseItems s.toList with
-    | .ok items => pure (report items)
-    | .error e => pure (failure e)
-  | "print", toks => do
-    let S ← parseSchema (" ".intercalate toks)
-    pure (jsonStr (Printer.print S))
-  | "lines", [doc] => do
-    let s ← strArg doc
-    match Lexer.logicalLines s.toList with
-    | .ok (ls, eof) =>
-      pure (jsonList (ls.map fun l => jsonList [toString l.lineNo, toString l.indent,
-        jsonStr (if l.kind == .comment then "comment" else "code"), jsonStr (String.ofList l.text)]) ++ " " ++ toString eof)
-    | .error e => pure (failure ⟨e.line, e.msg⟩)
-  | _, _ => none
-
-end Driver.C04
-
-def main : IO Unit := Driver.run Driver.C04.handle
+def main : IO Unit := Driver.run Driver.CatsParse.handle
